@@ -12,14 +12,17 @@ Definition mk_admin_self (c : acfg) : pv :=
           (PStr (s2l "mode"), a_mode c); (PStr (s2l "admin_namespace"), a_ns c) ].
 
 (* ---- authentication ---- *)
-(* what evaluating the configured predicate yields in each class *)
-Definition pred_sync (o : oracle) (f a : pv) : Res pv :=
-  if o_iscoro o f then Ok coroutine_object else o_call o f [a].
-Definition pred_async (o : oracle) (f a : pv) : Res pv := o_call o f [a].
+(* what evaluating the configured predicate yields in each class:
+   threaded class: the value the call returns (a coroutine object is just a truthy value there);
+   asyncio class: the value the call returns, awaited when asyncio.iscoroutine says it is a coroutine *)
+Definition pred_sync (o : oracle) (f a : pv) : Res pv := o_call o f [a].
+Definition pred_async (o : oracle) (f a : pv) : Res pv :=
+  r <- o_call o f [a] ;; if o_iscoroutine o r then o_await o r else Ok r.
 
 (* the outcome of admin_connect, as documented:
    falsy configuration -> authentication disabled; dict -> ==; list -> membership (==);
-   callable -> truthiness of its result (its exception propagates); anything else is not callable *)
+   anything else is called: a truthy result accepts, a falsy result OR ANY EXCEPTION (of the
+   predicate, of awaiting it, or "not callable") refuses *)
 Definition auth_outcome (pred : pv -> pv -> Res pv) (cfg a : pv) : Res pv :=
   if truthy cfg then
     match cfg with
@@ -27,9 +30,9 @@ Definition auth_outcome (pred : pv -> pv -> Res pv) (cfg a : pv) : Res pv :=
     | PList l => if existsb (py_eq a) l then Ok PNone else Err ConnectionRefused
     | PObj _ => match pred cfg a with
                 | Ok r => if truthy r then Ok PNone else Err ConnectionRefused
-                | Err e => Err e
+                | Err _ => Err ConnectionRefused
                 end
-    | _ => Err TypeError
+    | _ => Err ConnectionRefused
     end
   else Ok PNone.
 
@@ -39,12 +42,6 @@ Definition accepted_by (pred : pv -> pv -> Res pv) (cfg a : pv) : Prop :=
   \/ (exists kv, cfg = PDict kv /\ py_eq a cfg = true)
   \/ (exists l m, cfg = PList l /\ In m l /\ py_eq a m = true)
   \/ (exists n r, cfg = PObj n /\ pred cfg a = Ok r /\ truthy r = true).
-
-(* configurations in the property's quantifier: False, a dict, a list, a predicate *)
-Definition cfg_in_domain (cfg : pv) : Prop :=
-  truthy cfg = false \/ (exists kv, cfg = PDict kv) \/ (exists l, cfg = PList l) \/ (exists n, cfg = PObj n).
-Definition pred_returns (pred : pv -> pv -> Res pv) (cfg a : pv) : Prop :=
-  forall n, cfg = PObj n -> exists r, pred cfg a = Ok r.
 
 (* the services called after the decision return normally *)
 Definition ext_total (o : oracle) : Prop := forall name args, exists v, o_ext o name args = Ok v.
